@@ -937,6 +937,7 @@ def _dissolve_namedtuples(trees) -> None:
     `r = _Rec(..)` that is only read as `r.f` / `r.g` or unpacked is replaced by one local per field.  Only classes whose name
     starts with an underscore and which define no methods are dissolved."""
     recs: Dict[str, List[str]] = {}
+    ctor_recs: Dict[str, List[str]] = {}
     for t in trees:
         for c in ast.walk(t):
             if isinstance(c, ast.ClassDef) and c.name.startswith("_") and any((isinstance(b, ast.Name) and b.id == "NamedTuple") or
@@ -944,26 +945,38 @@ def _dissolve_namedtuples(trees) -> None:
                 body = [x for x in c.body if not (isinstance(x, ast.Expr) and isinstance(x.value, ast.Constant))]
                 if body and all(isinstance(x, ast.AnnAssign) and isinstance(x.target, ast.Name) and x.value is None for x in body):
                     recs[c.name] = [x.target.id for x in body]
+                else:
+                    # with methods / properties: still a plain record as far as `a, b = _Rec(..)` goes, unless it redefines construction
+                    # or iteration
+                    flds = [x for x in body if isinstance(x, ast.AnnAssign)]
+                    meths = [x for x in body if isinstance(x, (ast.FunctionDef, ast.AsyncFunctionDef))]
+                    if flds and len(flds) + len(meths) == len(body) and all(isinstance(x.target, ast.Name) and x.value is None for x in flds) \
+                            and not any(m_.name in ("__new__", "__init__", "__iter__", "__getitem__", "__len__") for m_ in meths):
+                        ctor_recs[c.name] = [x.target.id for x in flds]
     _NT_RECS.clear()
     _NT_RECS.update(recs)
-    if not recs:
+    _NT_CTOR_RECS.clear()
+    _NT_CTOR_RECS.update(ctor_recs)
+    if not recs and not ctor_recs:
         return
     for t in trees:
         _dissolve_records_in(t)
 
 
 _NT_RECS: Dict[str, List[str]] = {}
+_NT_CTOR_RECS: Dict[str, List[str]] = {}
 
 
 def _dissolve_records_in(t: ast.AST) -> None:
     recs = _NT_RECS
-    if not recs:
+    if not recs and not _NT_CTOR_RECS:
         return
 
-    def fields_of(call):
-        if not (isinstance(call, ast.Call) and isinstance(call.func, ast.Name) and call.func.id in recs):
+    def fields_of(call, ctor_only=False):
+        table = {**_NT_CTOR_RECS, **recs} if ctor_only else recs
+        if not (isinstance(call, ast.Call) and isinstance(call.func, ast.Name) and call.func.id in table):
             return None
-        fl = recs[call.func.id]
+        fl = table[call.func.id]
         vals = {}
         for i, a in enumerate(call.args):
             if isinstance(a, ast.Starred) or i >= len(fl):
@@ -980,10 +993,20 @@ def _dissolve_records_in(t: ast.AST) -> None:
         for fn in ast.walk(t):
             if not isinstance(fn, (ast.FunctionDef, ast.AsyncFunctionDef)):
                 continue
+            # (0) element k of a record built on the spot: `__item__(_Rec(a, b), 1)` / `_Rec(a, b)[1]` is b
+            for n in ast.walk(fn):
+                if isinstance(n, ast.Call) and isinstance(n.func, ast.Name) and n.func.id == "__item__" and len(n.args) == 2 and isinstance(n.args[1], ast.Constant) \
+                        and isinstance(n.args[1].value, int):
+                    fv = fields_of(n.args[0], ctor_only=True)
+                    if fv is not None and 0 <= n.args[1].value < len(fv[0]) and all(isinstance(x_, (ast.Name, ast.Attribute, ast.Constant, ast.Load)) for v_ in fv[0] for x_ in ast.walk(v_)):
+                        tgt = fv[0][n.args[1].value]
+                        n.__class__ = tgt.__class__
+                        n.__dict__.clear()
+                        n.__dict__.update(tgt.__dict__)
             # (1) direct unpacking
             for n in ast.walk(fn):
                 if isinstance(n, ast.Assign) and len(n.targets) == 1 and isinstance(n.targets[0], (ast.Tuple, ast.List)):
-                    fv = fields_of(n.value)
+                    fv = fields_of(n.value, ctor_only=True)
                     if fv is not None and len(n.targets[0].elts) == len(fv[0]):
                         n.value = ast.copy_location(ast.Tuple(elts=fv[0], ctx=ast.Load()), n.value)
                 if isinstance(n, ast.Return):
@@ -1311,6 +1334,21 @@ class _SplitTupleAssign(ast.NodeTransformer):
             return n
         ts, vs = n.targets[0].elts, n.value.elts
         if len(ts) != len(vs) or len(ts) < 2 or any(isinstance(e, ast.Starred) for e in list(ts) + list(vs)):
+            return n
+        def _nested_names(t):
+            return isinstance(t, (ast.Tuple, ast.List)) and all(isinstance(e, ast.Name) for e in t.elts)
+        if any(_nested_names(t) for t in ts) and all(isinstance(t, ast.Name) or _nested_names(t) for t in ts):
+            # `(a, b), c = p, q` with nested name patterns: one store per element, the nested ones split further if they can be
+            flat = [e.id for t in ts for e in (t.elts if _nested_names(t) else [t])]
+            if len(set(flat)) == len(flat):
+                def tn(t):
+                    return {e.id for e in (t.elts if _nested_names(t) else [t])}
+                if not any(isinstance(k, ast.Name) and k.id in tn(t) for i_, t in enumerate(ts) for v in vs[i_ + 1:] for k in ast.walk(v)):
+                    out = []
+                    for t, v in zip(ts, vs):
+                        r = self.visit_Assign(ast.copy_location(ast.Assign(targets=[t], value=v), n))
+                        out += r if isinstance(r, list) else [r]
+                    return out
             return n
         names_ok = all(isinstance(t, ast.Name) for t in ts)
         attrs_ok = all(isinstance(t, ast.Name) or (isinstance(t, ast.Attribute) and isinstance(t.value, ast.Name) and t.value.id == "self") for t in ts) \
